@@ -225,3 +225,15 @@ func DumpGoroutines(tag string) string {
 	_ = pprof.Lookup("goroutine").WriteTo(f, 2)
 	return path
 }
+
+// NonTCPSockets counts the open sockets that are not TCP sockets (datagram and unix sockets).
+func NonTCPSockets() int {
+	n := 0
+	for _, l := range FDSummary() {
+		if strings.HasSuffix(l, "x socket (not tcp)") {
+			k, _ := strconv.Atoi(strings.SplitN(l, "x", 2)[0])
+			n += k
+		}
+	}
+	return n
+}
